@@ -30,3 +30,42 @@ CASES = [
     dict(id='c11-benign-gate-reordered', prop='C11', file=A, expect='silent',
          edits=[("    if self._allow_control_flow and activatable:\n      return self.generic_visit(node)", "    if activatable and self._allow_control_flow:\n      return self.generic_visit(node)")]),
 ]
+
+_A = 'fiddle/_src/experimental/auto_config.py'
+CASES += [
+    dict(id='c11-closure-unsorted-wrong-order', prop='C11', file=_A,
+         expect='violation', names='ORD.closure-cells',
+         edits=[("""    indexed_handlers = []
+    for handler_id, handler in (""", """    indexed_handlers = []
+    if _CALL_HANDLER_ID in code.co_freevars:
+      handler_idx = code.co_freevars.index(_CALL_HANDLER_ID)
+      handler = _make_closure_cell(auto_config_call_handler)
+      indexed_handlers.append((handler_idx, handler))
+    for handler_id, handler in ("""),
+                ("""        indexed_handlers.append((handler_idx, handler))
+    if _CALL_HANDLER_ID in code.co_freevars:
+      handler_idx = code.co_freevars.index(_CALL_HANDLER_ID)
+      handler = _make_closure_cell(auto_config_call_handler)
+      indexed_handlers.append((handler_idx, handler))
+
+""", """        indexed_handlers.append((handler_idx, handler))
+
+"""),
+                ("    for handler_idx, handler in sorted(indexed_handlers):",
+                 "    for handler_idx, handler in indexed_handlers:")]),
+    dict(id='c11-benign-closure-unsorted-name-order', prop='C11', file=_A,
+         expect='silent',
+         edits=[("    for handler_idx, handler in sorted(indexed_handlers):",
+                 "    for handler_idx, handler in indexed_handlers:")]),
+    dict(id='c11-benign-closure-rename', prop='C11', file=_A, expect='silent',
+         edits=[("    for handler_idx, handler in sorted(indexed_handlers):\n      closure.insert(handler_idx, handler)",
+                 "    for position, cell in sorted(indexed_handlers):\n      closure.insert(position, cell)")]),
+    dict(id='c11-make-partial-assign-in-place', prop='C11', file=_A,
+         expect='violation', names='OWN.handler-arguments',
+         edits=[("    return copying.copy_with(buildable_or_callable, **kwargs)",
+                 "    for name, v in kwargs.items():\n      setattr(buildable_or_callable, name, v)\n    return buildable_or_callable")]),
+    dict(id='c11-benign-make-partial-copy-then-set', prop='C11', file=_A,
+         expect='silent',
+         edits=[("    return copying.copy_with(buildable_or_callable, **kwargs)",
+                 "    result = copying.copy_with(buildable_or_callable)\n    for name, v in kwargs.items():\n      setattr(result, name, v)\n    return result")]),
+]
